@@ -285,6 +285,61 @@ theorem selects_keyless (neg : Bool) (want : List Bytes) (h : Bytes) (e : Entry)
     (hk : e.hasKey = false) (hs : isSpaceOnly (e.all h) = false) : selects neg want h e = false := by
   simp [selects, hk, hs]
 
+/-! ## strings.ToLower / strings.ToUpper on ASCII strings -/
+
+theorem caseByte_lower (a : UInt8) (h : a < 128) : encodeRune (caseRune false a.toNat) = [lowerByte a] := by
+  have key : ∀ n : Fin 128,
+      encodeRune (caseRune false (UInt8.ofNat n.val).toNat) = [lowerByte (UInt8.ofNat n.val)] := by decide
+  have := key ⟨a.toNat, by simpa [UInt8.lt_iff_toNat_lt] using h⟩
+  simpa using this
+
+theorem caseByte_upper (a : UInt8) (h : a < 128) : encodeRune (caseRune true a.toNat) = [upperByte a] := by
+  have key : ∀ n : Fin 128,
+      encodeRune (caseRune true (UInt8.ofNat n.val).toNat) = [upperByte (UInt8.ofNat n.val)] := by decide
+  have := key ⟨a.toNat, by simpa [UInt8.lt_iff_toNat_lt] using h⟩
+  simpa using this
+
+theorem decodeRune_ascii (a : UInt8) (tl : Bytes) (h : a < 128) : decodeRune (a :: tl) = some (a.toNat, 1) := by
+  simp [decodeRune, h]
+
+theorem goCaseLoop_ascii (up : Bool) : ∀ (b : Bytes) (fuel : Nat), b.length ≤ fuel → (∀ c ∈ b, c < 128) →
+    goCaseLoop up fuel b = b.map (if up then upperByte else lowerByte) := by
+  intro b
+  induction b with
+  | nil => intro fuel _ _; cases fuel <;> simp [goCaseLoop]
+  | cons a tl ih =>
+    intro fuel hl hall
+    cases fuel with
+    | zero => simp at hl
+    | succ f =>
+      have ha : a < 128 := hall a (by simp)
+      simp only [goCaseLoop, decodeRune_ascii a tl ha, Nat.sub_self, List.drop_zero]
+      rw [ih f (by simpa using hl) (fun c hc => hall c (by simp [hc]))]
+      cases up
+      · simp [caseByte_lower a ha]
+      · simp [caseByte_upper a ha]
+
+/-- all bytes are ASCII -/
+def IsAscii (b : Bytes) : Prop := ∀ c ∈ b, c < 128
+
+/-- on an ASCII string `strings.ToLower` is the byte-wise ASCII lower-casing -/
+theorem goLower_ascii (b : Bytes) (h : IsAscii b) : goLower b = lowerBytes b := by
+  simpa [lowerBytes, goLower] using goCaseLoop_ascii false b b.length (Nat.le_refl _) h
+
+/-- on an ASCII string `strings.ToUpper` is the byte-wise ASCII upper-casing -/
+theorem goUpper_ascii (b : Bytes) (h : IsAscii b) : goUpper b = upperBytes b := by
+  simpa [upperBytes, goUpper] using goCaseLoop_ascii true b b.length (Nat.le_refl _) h
+
+theorem map_goLower_ascii (names : List Bytes) (h : ∀ n ∈ names, IsAscii n) :
+    names.map goLower = names.map lowerBytes :=
+  List.map_congr_left (fun n hn => goLower_ascii n (h n hn))
+
+/-- the decision of `Fields` / `FieldsNot` for an entry with a key, in terms of the requested names -/
+theorem selects_iff (neg : Bool) (want : List Bytes) (h : Bytes) (e : Entry)
+    (hk : e.hasKey = true) (hs : isSpaceOnly (e.all h) = false) :
+    selects neg want h e = true ↔ (if neg then e.mapKey h ∉ want else e.mapKey h ∈ want) := by
+  cases neg <;> simp [selects, hk, hs]
+
 /-! ## SetHeaderValue -/
 
 theorem firstKeyedLoop_bound (n : Nat) : ∀ (fuel : Nat) (rest : Bytes) (off : Nat) (e : Entry),
